@@ -40,7 +40,8 @@ ASSUMPTIONS = [
 FLOORS = {'steps': 5000, 'staleness_opportunities': 200,
           'fresh_model_comparisons': 500, 'name_sets': 10,
           'hostile_steps': 20, 'derived_models': 30,
-          'long_chain_steps': 60, 'reloads_into_the_same_model': 5}
+          'long_chain_steps': 60, 'reloads_into_the_same_model': 5,
+          'inputs_emptied': 20}
 ANCHOR_FUNCS = {
     'xlcalculator/evaluator.py': ['Evaluator.evaluate',
                                   'Evaluator.set_cell_value',
@@ -275,6 +276,13 @@ class History:
         if via_xlcell:
             from xlcalculator import xltypes
             a = xltypes.XLCell(build.addr(key), None)
+            # the address object may be the model's own cell, or one that
+            # carries a value of its own: the VALUE argument is what counts
+            own = self.model.cells.get(build.addr(key))
+            if via_xlcell == 'own' and own is not None:
+                a = own
+            elif via_xlcell == 'carrying':
+                a = xltypes.XLCell(build.addr(key), 12345)
         self.log.append(f'set({a}, {value!r})' if lib_value is None
                         else f'set({a}, {lib_value!r})')
         self.ctx.event('steps')
@@ -438,6 +446,9 @@ def run_sampled(ctx, count):
     rng = ctx.rng
     from xlcalculator.xlfunctions import func_xltypes as T
     monitors.Spies().install()
+    # inputs get emptied in these histories; how a blank orders against a
+    # value is decided in C09 (KF-C09-03), not here
+    ref.QUIRKS.add('blank_compare_undecided')
     for hi in range(count):
         sheets = ('Sheet1',) if rng.random() < 0.6 else ('Sheet1', 'Data')
         m = gen.gen_model(rng, n_inputs=rng.randint(2, 10),
@@ -500,9 +511,16 @@ def run_sampled(ctx, count):
                 ctx.event('hostile_steps')
             elif x < 0.38:
                 H.do_set(rng.choice(m.inputs), rng.choice([0, 1, 2, 3, 7]),
-                         via_xlcell=True)
+                         via_xlcell=rng.choice([True, 'own', 'carrying']))
                 ctx.event('hostile_steps')
-            elif x < 0.40 and prov == 'compiled' and not use_names:
+            elif x < 0.395:
+                # emptying an input (None), through every form of address
+                H.do_set(rng.choice(m.inputs), None,
+                         via_xlcell=rng.choice([False, True, 'own',
+                                                'carrying']))
+                ctx.event('hostile_steps')
+                ctx.event('inputs_emptied')
+            elif x < 0.415 and prov == 'compiled' and not use_names:
                 if getattr(H, 'saved', None) is None:
                     H.do_save()
                 else:
